@@ -26,6 +26,7 @@ LEVEL_NOTE = ("Trusted: Lean kernel; axioms propext/Classical.choice/Quot.sound;
               "ancestor chain of the destination or at a file output path, non-UTF-8 names (protobuf rejects them at write time), mode bits other "
               "than 'some executable bit set', the interleaving of the restore goroutines (only their joint result).")
 TECHNIQUE = "Lean 4 proof over an executable model + differential correspondence with the real output handlers + before/after listing oracle"
+PROP_MODULES = ["GrogModel.Props.C06", "GrogModel.Props.ComposeStores"]
 OBLIGATIONS = [
     "Grog.C06.restoreDir_writeDir",
     "Grog.C06.restoreFile_writeFile",
@@ -33,6 +34,8 @@ OBLIGATIONS = [
     "Grog.C06.validate_outputs",
     "Grog.C06.restoreFile_old_loses_exec_witness",
     "Grog.C06.restoreFile_old_missing_parent_witness",
+    "Grog.Compose.restoreDir_refines_exec_restore",
+    "Grog.Compose.restoreFile_refines_exec_restore",
 ]
 ASSUMPTIONS = [
     "hash collision-free on the occurring streams; protobuf Tree marshalling has a left inverse (hypotheses of the theorems)",
